@@ -103,3 +103,16 @@ Example plate_obs_computes :
   map Qred (plate_amounts_of default_cfg pl [w] (Pu, BL)) = [60; 10] /\
   map Qred (plate_amounts_of default_cfg pl [s] (Pu, BL)) = [0; 0].
 Proof. cbv zeta. repeat split; vm_compute; reflexivity. Qed.
+
+(* ---- executable read-outs for the correspondence run (harness/props/C10.py: plate_observer_tie): for every plate every step
+   returns, its variable, the number of wells, the volume array in uL and in mL, the plate's total in mL, and the first row's
+   array in mL (`plate[1, :]`), exactly the definitions the theorems above are about *)
+Definition showPlateObs (cf : cfg) (v : nat) (p : plate) : list Z :=
+  Z.of_nat v :: Z.of_nat (length (wells p))
+  :: flat_map showQ (plate_volumes cf p Pu) ++ flat_map showQ (plate_volumes cf p Pm)
+  ++ showQ (plate_get_volume cf p Pm)
+  ++ Z.of_nat (ncols p) :: flat_map showQ (slice_volumes cf p (RRect [0%nat] (seq 0 (ncols p))) Pm).
+Definition showRunPlateObs (cf : cfg) (ops : list op) : list Z :=
+  flat_map (fun r => match r with
+                     | Ok l => flat_map (fun x => match snd x with OP pl => showPlateObs cf (fst x) pl | OC _ => [] end) l
+                     | Err _ => [] end) (run cf [] ops).
